@@ -168,6 +168,7 @@ type tRec struct {
 	Got    bool      `json:"got"`
 	Before instState `json:"before"`
 	After  instState `json:"after"`
+	Alive  []string  `json:"alive,omitempty"` // "settled" records: threads still alive (monitors)
 }
 
 func (s instState) MarshalJSON() ([]byte, error) {
@@ -187,20 +188,76 @@ func (s *instState) UnmarshalJSON(b []byte) error {
 
 type tCall struct{ inst, n int }
 
-// tokenScenario: threads[i] = the AllowN calls of thread i (instance, n); every call uses the
-// virtual clock as now. withOutage adds a thread that takes the store down and up again.
-func tokenScenario(rate, burst int, threads [][]tCall, withOutage bool) vx.Scenario {
+// Fault scripts (one "faults" thread executes the script, one operation per step):
+//
+//	down / up    an outage begins / ends (every store command fails in between)
+//	one1 / one2  exactly the next 1 / 2 store commands fail (a single lost command, a blip)
+//
+// Two ways of placing the harness threads' operations:
+//   - Op points (tokenScenario): a scheduling point before every call / fault step; leaving a
+//     thread that could go on costs a preemption, so P bounds the number of context switches;
+//   - yields (tokenFaultScenario): the harness threads YIELD before each of their operations:
+//     every order of whole harness operations (calls, fault steps, and the monitors' steps at
+//     those boundaries) is explored free of charge; the preemption budget P is spent only INSIDE
+//     a call or inside the monitor (between its ping, its flag updates and its deferred
+//     clean-up); the timer budget T lets the monitor's virtual ticker fire while callers are
+//     still runnable.
+//
+// Recovery epilogue of every scenario with a fault thread (main thread, once callers and the
+// fault thread have finished): every fault is cleared ("healed"); the virtual clock moves on by
+// settlePings ping intervals at quiescence (timers fire only when nothing is enabled); then
+//   - every instance must be back in store mode: one that is still in rescue mode would never
+//     rejoin the shared bucket — with a monitor alive `token:stuck-in-rescue`, with none
+//     `token:stuck-in-rescue:no-monitor`;
+//   - after a further idle time that refills any bucket completely (⌈burst/rate⌉+1 s), a final
+//     pair AllowN#1(now, burst), AllowN#2(now, burst) at ONE instant must be answered by ONE
+//     bucket: the first is granted, the second refused.
+const (
+	pingMs      = 100 // core/limit pingInterval
+	settlePings = 5
+)
+
+func describeCalls(threads [][]tCall) string {
 	var desc []string
-	total := 0
 	for _, th := range threads {
 		var d []string
 		for _, c := range th {
 			d = append(d, fmt.Sprintf("#%d:%d", c.inst, c.n))
-			total += c.n
 		}
 		desc = append(desc, strings.Join(d, ","))
 	}
-	name := fmt.Sprintf("token(r=%d,b=%d) calls=[%s] outage=%v", rate, burst, strings.Join(desc, " | "), withOutage)
+	return strings.Join(desc, " | ")
+}
+
+// tokenScenario: threads[i] = the AllowN calls of thread i (instance, n); every call uses the
+// virtual clock as now. withOutage adds a thread that takes the store down and up again (Op
+// points; tier bounds).
+func tokenScenario(rate, burst int, threads [][]tCall, withOutage bool) vx.Scenario {
+	var faults []string
+	if withOutage {
+		faults = []string{"down", "up"}
+	}
+	name := fmt.Sprintf("token(r=%d,b=%d) calls=[%s] outage=%v", rate, burst, describeCalls(threads), withOutage)
+	return tokenScenarioX(name, rate, burst, threads, faults, false)
+}
+
+// tokenFaultScenario: callers + a fault thread running script, harness threads yield between
+// their operations, own bounds (P, T).
+func tokenFaultScenario(rate, burst int, threads [][]tCall, script []string, p, t int) vx.Scenario {
+	name := fmt.Sprintf("token(r=%d,b=%d) calls=[%s] faults=[%s] yielding", rate, burst, describeCalls(threads), strings.Join(script, ","))
+	sc := tokenScenarioX(name, rate, burst, threads, script, true)
+	sc.SetBound, sc.P, sc.T, sc.Weight = true, p, t, 5
+	return sc
+}
+
+func tokenScenarioX(name string, rate, burst int, threads [][]tCall, faults []string, yield bool) vx.Scenario {
+	for _, f := range faults {
+		if f != "down" && f != "up" && f != "one1" && f != "one2" {
+			panic("bad fault op " + f)
+		}
+	}
+	withFaults := len(faults) > 0
+	fillMs := int64((burst+rate-1)/rate+1) * 1000
 	body := func() {
 		e := getEnv()
 		e.reset()
@@ -213,43 +270,88 @@ func tokenScenario(rate, burst int, threads [][]tCall, withOutage bool) vx.Scena
 			a, m, t := limit.VerifTokenState(lims[i], vsched.Epoch.Add(msDur(nowMs)))
 			return instState{a, m, t}
 		}
+		step := func(label string) {
+			if yield {
+				vsched.Yield()
+			} else {
+				vsched.Op(label)
+			}
+		}
+		logRec := func(rc tRec) {
+			b, _ := json.Marshal(rc)
+			vsched.Log("%s", b)
+		}
+		call := func(who string, c tCall) {
+			now := vsched.TimeNow()
+			nowMs := now.Sub(vsched.Epoch).Milliseconds()
+			before := state(c.inst, nowMs)
+			var got bool
+			e.counted(func() { got = lims[c.inst].AllowN(now, c.n) })
+			if e.resent.Swap(false) {
+				vsched.Log("!resent")
+			}
+			logRec(tRec{T: who, I: c.inst, N: c.n, NowMs: nowMs, Got: got, Before: before, After: state(c.inst, nowMs)})
+		}
 		vsched.QuietBegin()
 		for ti, calls := range threads {
 			ti, calls := ti, calls
 			vsched.GoNamed(fmt.Sprintf("caller%d", ti), false, func() {
 				for _, c := range calls {
-					vsched.Op("allow")
-					now := vsched.TimeNow()
-					nowMs := now.Sub(vsched.Epoch).Milliseconds()
-					before := state(c.inst, nowMs)
-					var got bool
-					e.counted(func() { got = lims[c.inst].AllowN(now, c.n) })
-					if e.resent.Swap(false) {
-						vsched.Log("!resent")
-					}
-					b, _ := json.Marshal(tRec{T: fmt.Sprintf("t%d", ti), I: c.inst, N: c.n, NowMs: nowMs, Got: got, Before: before, After: state(c.inst, nowMs)})
-					vsched.Log("%s", b)
+					step("allow")
+					call(fmt.Sprintf("t%d", ti), c)
 				}
 			})
 		}
-		if withOutage {
-			vsched.GoNamed("outage", false, func() {
-				for _, on := range []bool{true, false} {
-					vsched.Op("outage")
-					e.fault(on)
-					o := "off"
-					if on {
-						o = "on"
+		if withFaults {
+			vsched.GoNamed("faults", false, func() {
+				for _, f := range faults {
+					step("outage")
+					switch f {
+					case "down":
+						e.fault(true)
+					case "up":
+						e.fault(false)
+					case "one1":
+						e.failNext(1)
+					case "one2":
+						e.failNext(2)
 					}
-					b, _ := json.Marshal(tRec{T: "outage", Outage: o})
-					vsched.Log("%s", b)
+					logRec(tRec{T: "outage", Outage: f})
 				}
 			})
 		}
 		vsched.QuietEnd()
+		if !withFaults {
+			return
+		}
+		// recovery epilogue
+		vsched.Quiesce()
+		for _, a := range vsched.AliveThreads() {
+			if strings.HasPrefix(a, "caller") || strings.HasPrefix(a, "faults") {
+				logRec(tRec{T: "harness", Alive: vsched.AliveThreads()})
+				return
+			}
+		}
+		e.fault(false)
+		e.failNext(0)
+		logRec(tRec{T: "healed", NowMs: vsched.TimeNow().Sub(vsched.Epoch).Milliseconds()})
+		vsched.TimeSleep(msDur(settlePings * pingMs))
+		vsched.Quiesce()
+		nowMs := vsched.TimeNow().Sub(vsched.Epoch).Milliseconds()
+		for _, i := range []int{1, 2} {
+			logRec(tRec{T: "settled", I: i, NowMs: nowMs, After: state(i, nowMs), Alive: vsched.AliveThreads()})
+		}
+		vsched.TimeSleep(msDur(fillMs))
+		vsched.Quiesce()
+		nowMs = vsched.TimeNow().Sub(vsched.Epoch).Milliseconds()
+		e.forward(nowMs, nowMs) // the store's clock stood at the epoch during the racing phase
+		for _, i := range []int{1, 2} {
+			call("final", tCall{i, burst})
+		}
 	}
 	check := func(e *vsched.Exec) vx.Verdict {
 		getEnv().fault(false)
+		getEnv().failNext(0)
 		if v := guard(e); v != nil {
 			return *v
 		}
@@ -258,8 +360,9 @@ func tokenScenario(rate, burst int, threads [][]tCall, withOutage bool) vx.Scena
 		}
 		w := newTokenWorld(rate, burst)
 		var sig, order []string
-		granted, lastMs := 0, int64(0)
+		granted, lastMs, healedMs := 0, int64(0), int64(-1)
 		perInst := map[int]int{}
+		var settled, final []tRec
 		for _, l := range e.Log() {
 			if l == "!resent" {
 				continue
@@ -268,9 +371,22 @@ func tokenScenario(rate, burst int, threads [][]tCall, withOutage bool) vx.Scena
 			if err := json.Unmarshal([]byte(l), &rc); err != nil {
 				return vx.Verdict{Class: "harness-bad-log", Msg: err.Error()}
 			}
-			if rc.Outage != "" {
-				sig = append(sig, "O"+rc.Outage)
-				order = append(order, "outage-"+rc.Outage)
+			switch {
+			case rc.Outage != "":
+				sig = append(sig, "F"+rc.Outage)
+				order = append(order, "fault:"+rc.Outage)
+				continue
+			case rc.T == "harness":
+				return vx.Verdict{Class: "harness-threads-not-finished", Msg: fmt.Sprintf("order %v: at quiescence harness threads are still alive: %v", order, rc.Alive), Sig: "violation"}
+			case rc.T == "healed":
+				healedMs = rc.NowMs
+				order = append(order, fmt.Sprintf("all-faults-over(+%dms)", rc.NowMs))
+				continue
+			case rc.T == "settled":
+				settled = append(settled, rc)
+				continue
+			case rc.T == "final":
+				final = append(final, rc)
 				continue
 			}
 			mode := "s"
@@ -287,7 +403,7 @@ func tokenScenario(rate, burst int, threads [][]tCall, withOutage bool) vx.Scena
 				w.advance(rc.NowMs - lastMs)
 				lastMs = rc.NowMs
 			}
-			if !withOutage {
+			if !withFaults {
 				// the store is reachable throughout: every call of an instance in store mode is
 				// answered by the shared bucket, in log order
 				if class, msg := w.judgeAllow(rc.I, rc.N, rc.NowMs, rc.Before, rc.After, rc.Got); class != "" {
@@ -300,7 +416,7 @@ func tokenScenario(rate, burst int, threads [][]tCall, withOutage bool) vx.Scena
 		el := float64(lastMs) / 1000
 		one := float64(burst) + float64(rate)*el
 		sources := 1.0
-		if withOutage {
+		if withFaults {
 			sources = 3 // shared bucket + the in-process limiters of instances 1 and 2
 			for i, g := range perInst {
 				if float64(g) > 2*one {
@@ -311,9 +427,44 @@ func tokenScenario(rate, burst int, threads [][]tCall, withOutage bool) vx.Scena
 		if float64(granted) > sources*one {
 			return vx.Verdict{Class: "token:joint-bound-exceeded", Msg: fmt.Sprintf("order %v: %d tokens granted jointly, bound %.1f (burst %d, rate %d/s, elapsed %.1fs, %v bucket(s))", order, granted, sources*one, burst, rate, el, sources), Sig: "violation"}
 		}
+		if !withFaults {
+			return vx.Verdict{Sig: strings.Join(sig, " ")}
+		}
+		if healedMs < 0 || len(settled) != 2 || len(final) != 2 {
+			return vx.Verdict{Class: "harness-epilogue-missing", Msg: fmt.Sprintf("order %v: epilogue incomplete (healed %d, settled %d, final %d records)", order, healedMs, len(settled), len(final)), Sig: "violation"}
+		}
+		// recovery: the store has been reachable, without a single failing command, for
+		// settlePings ping intervals
+		for _, rc := range settled {
+			if rc.After.alive {
+				continue
+			}
+			class := "token:stuck-in-rescue"
+			what := fmt.Sprintf("its recovery monitor is still running (threads alive: %v)", rc.Alive)
+			if !rc.After.monitor {
+				class += ":no-monitor"
+				what = fmt.Sprintf("NO recovery monitor is running (monitorStarted=false; threads alive: %v): nothing will ever switch it back", rc.Alive)
+			}
+			return vx.Verdict{Class: class, Msg: fmt.Sprintf("order %v: the last fault ended at +%d ms; at +%d ms (%d ping intervals later, at quiescence) instance #%d is still answering from its in-process limiter and %s — it no longer shares the bucket of the key although the store is reachable", order, healedMs, rc.NowMs, settlePings, rc.I, what), Sig: "violation"}
+		}
+		// final pair at one instant, after an idle time that fills any bucket: ONE bucket answers
+		ref := &bucket{rate: rate, burst: burst, tokens: burst, sec: vsched.Epoch.Unix() + final[0].NowMs/1000}
+		for k, rc := range final {
+			had := ref.tokens
+			want := ref.take(vsched.Epoch.Unix()+rc.NowMs/1000, rc.N)
+			sig = append(sig, fmt.Sprintf("final%d%v", rc.I, rc.Got))
+			if rc.Got == want {
+				continue
+			}
+			class := "token:refused-although-bucket-holds-n"
+			if rc.Got {
+				class = "token:granted-beyond-bucket:after-recovery"
+			}
+			return vx.Verdict{Class: class, Msg: fmt.Sprintf("order %v: store reachable and idle for %d ms, then at one instant (+%d ms) final call %d AllowN#%d(now,%d) = %v (instance %v -> %v), but the ONE shared bucket (burst %d) held %d: the statement demands %v", order, fillMs, rc.NowMs, k+1, rc.I, rc.N, rc.Got, rc.Before, rc.After, burst, had, want), Sig: "violation"}
+		}
 		return vx.Verdict{Sig: strings.Join(sig, " ")}
 	}
-	return vx.Scenario{Name: name, Body: body, Check: check, Horizon: 4000}
+	return vx.Scenario{Name: name, Body: body, Check: check, Horizon: 6000}
 }
 
 func scenarios(thorough bool) []vx.Scenario {
@@ -330,12 +481,41 @@ func scenarios(thorough bool) []vx.Scenario {
 		tokenScenario(1, 1, [][]tCall{{c(1, 1), c(1, 1)}, {c(2, 1), c(2, 1)}}, true),
 		tokenScenario(2, 4, [][]tCall{{c(1, 4), c(1, 4)}, {c(2, 4), c(2, 4)}, {c(1, 4)}}, true),
 	}
+	bigAt := len(out) - 1
+	// flapping store / single failing commands + recovery epilogue: {quick P, thorough P} (T=1 in
+	// both tiers; quick P<0: thorough only). Sizes measured (executions): see NOTES.md
+	flap, blips, blip21 := []string{"down", "up", "down", "up"}, []string{"one1", "one1"}, []string{"one2", "one1"}
+	for _, f := range []struct {
+		rate, burst int
+		threads     [][]tCall
+		script      []string
+		qp, tp      int
+	}{
+		{2, 4, [][]tCall{{c(1, 4), c(1, 4)}}, blips, 2, 3},
+		{2, 4, [][]tCall{{c(1, 4), c(1, 4)}}, flap, 2, 3},
+		{1, 1, [][]tCall{{c(1, 1), c(1, 1), c(1, 1)}}, flap, 1, 2},
+		{2, 4, [][]tCall{{c(1, 4), c(1, 4), c(1, 4)}}, blip21, 2, 3},
+		{2, 4, [][]tCall{{c(1, 4), c(1, 4)}, {c(2, 4)}}, blips, 1, 2},
+		{2, 4, [][]tCall{{c(1, 4), c(1, 4)}, {c(1, 4)}}, blips, 1, 2},
+		{2, 4, [][]tCall{{c(1, 4), c(1, 4)}, {c(2, 4)}}, blip21, 1, 1},
+		{2, 4, [][]tCall{{c(1, 4), c(1, 4)}, {c(2, 4), c(2, 4)}}, blips, -1, 1},
+		{2, 4, [][]tCall{{c(1, 4), c(1, 4)}, {c(2, 4)}}, flap, -1, 1},
+		{5, 10, [][]tCall{{c(1, 10), c(1, 10)}, {c(2, 10), c(2, 10)}}, []string{"down", "up", "one1"}, -1, 1},
+	} {
+		p := f.qp
+		if thorough {
+			p = f.tp
+		}
+		if p >= 0 {
+			out = append(out, tokenFaultScenario(f.rate, f.burst, f.threads, f.script, p, 1))
+		}
+	}
 	if thorough {
 		// the 3-caller outage scenario has ~55 points per execution (monitor threads, tickers):
 		// P=3,T=1 costs 1.25 M executions (13 min); keep it at P=2,T=1 and let the 2-caller one go deeper
 		big := tokenScenario(2, 4, [][]tCall{{c(1, 4), c(1, 4)}, {c(2, 4), c(2, 4)}, {c(1, 4)}}, true)
 		big.SetBound, big.P, big.T = true, 2, 1
-		out[len(out)-1] = big
+		out[bigAt] = big
 		big2 := tokenScenario(5, 10, [][]tCall{{c(1, 10), c(1, 10)}, {c(2, 10), c(2, 10)}, {c(2, 1)}}, true)
 		big2.SetBound, big2.P, big2.T = true, 2, 1
 		out = append(out, big2)
